@@ -506,6 +506,9 @@ def run(ck):
         cpp_classes(ck, bindgen, tmp, quick)
         fixed_cases(ck, bindgen, tmp)
         callconv_host(ck, bindgen, tmp)
+        import c04_abi
+        vlib.coq_check_properties(ck, "theories/C04/AbiProperties.v")
+        c04_abi.run(ck, bindgen, tmp, quick)
     finally:
         shutil.rmtree(tmp, ignore_errors=True)
 
@@ -809,6 +812,18 @@ def fixed_cases(ck, bindgen, tmp):
     if rc == 0 and (decls.get("type_") or {}).get("link") == "\x01type":
         ck.violation("C04-distrust-mangling-renamed-on-prefixed-target", "with --distrust-clang-mangling on a Mach-O target a renamed function gets the verbatim link_name `type` although its symbol is `_type` "
                      "(C04/Properties.v fallback_renamed_prefixed_refuted)", {"header": "int type(int);", "flags": ["--distrust-clang-mangling", "--", "--target=x86_64-apple-darwin"], "emitted": out[-300:]})
+    # globals keep their mutability: a non-const variable with an initialiser is still a variable that C code may change
+    open(os.path.join(d, "gv.h"), "w").write("int counter_init = 5;\nstatic int static_init = 6;\nextern int plain_extern;\nconst int really_const = 7;\nunsigned long long big_init = 18446744073709551615UL;\n")
+    rc, out, err = sh2([bindgen, os.path.join(d, "gv.h")], timeout=60)
+    ck.evaluations += 1
+    ck.nontrivial.add("initialised-globals")
+    for nm in ("counter_init", "big_init"):
+        if re.search(r"pub const %s\b" % nm, out):
+            ck.violation("C04-initialised-global-as-const", "a non-const global with an initialiser (`int counter_init = 5;`) is emitted as a Rust `const` holding the initialiser instead of a `static mut` bound to the symbol: "
+                         "the binding neither refers to the C object nor has its mutability", {"header": open(os.path.join(d, "gv.h")).read(), "emitted": re.findall(r"pub (?:const|static)[^;]*;", out)})
+            break
+    if not re.search(r"pub static mut plain_extern\b", out) or not re.search(r"pub const really_const\b|pub static really_const\b", out):
+        ck.violation("C04-global-mutability", "an extern int is not `static mut` or a const int is not immutable", {"emitted": re.findall(r"pub (?:const|static)[^;]*;", out)})
     # --prefix-link-name: the binding must reach the prefixed symbol
     open(os.path.join(d, "p.h"), "w").write("int plain(int);\n")
     rc, out, err = sh2([bindgen, os.path.join(d, "p.h"), "--prefix-link-name", "pre_"], timeout=60)
